@@ -8,6 +8,18 @@ VERIF = os.path.dirname(os.path.dirname(os.path.abspath(__file__)))
 
 # id: (engine, category, technique, level text, level note, design ref)
 CHECKS = {
+    'C01': ('codec_exec', 'exploration', 'runtime oracle: independent schema-directed wire parser + intended content vs encode/factory/re-encode of the real codec, under ASan+UBSan',
+            'Thousands of generated messages per run cover every message type of both schemas, optional-field subsets, type-domain values (negative/boundary ints, floats, '
+            'printable strings with "=", ms timestamps, Length/data pairs) and nested groups; the wire is compared token by token with the intended content, the decoded object with '
+            'the wire, and the re-encoding byte for byte.',
+            'Independent schema model and tokenizer (pylib); fields are built from text through the metadata factory.', '3 C01'),
+    'C02': ('codec_exec', 'exploration', 'runtime oracle: independent tokenizer recomputes preamble order, BodyLength, CheckSum, token syntax, section order, position order and group structure of every encoded message',
+            'Same generator as C01 with shuffled insertion order; both encode(f8String&) and encode(char**) paths; every clause of the statement is recomputed from the bytes and the independent schema model.',
+            'Schema position order = document order with components expanded (independent model).', '3 C02'),
+    'C06': ('codec_exec', 'exploration', 'runtime oracle: every Length/data pair of both schemas x payload classes, through the API round trip and through reference-rendered bytes, under ASan+UBSan',
+            'All pairs the independent schema model finds (header, body, trailer, groups) are exercised with printable, SOH, "=", SOH+"10=", high-bit, NUL, 1-byte and 2047-byte payloads; '
+            'the payload and all following fields must decode identically. One recorded finding (NUL truncation).',
+            'Payload <= 2047 bytes; NUL payloads only on the decode side.', '3 C06'),
     'C07': ('prim_exec', 'exploration', 'runtime oracle (naive byte sum) + ASan red zones/UBSan over enumerated and random (size, offset, length) geometries',
             'Every (sz,off,len) with sz<=40 is enumerated and ~300k larger geometries sampled per quick run on exact-size heap buffers; an out-of-range read '
             'adjacent to the buffer or a wrong sum is reported with the failing geometry. Exploration, not proof: sizes above 40 are sampled.',
@@ -23,6 +35,9 @@ CHECKS = {
     'C10': ('prim_exec', 'exploration', 'runtime oracle: set membership from an independent parse of the schema XML vs get_rlm_idx / descriptions / is_valid / print_field on every enumerated field',
             'All 350 enumerated fields of FIX42UTEST and FIX44 are probed with every byte value (chars), [min-50,max+50] (ints) and all short strings over the members\' alphabet (strings).',
             'Independent schema model (pylib/fixschema.py); only set domains exist in the stock schemas.', '3 C10'),
+    'C11': ('codec_exec', 'exploration', 'runtime oracle: byte equality of encode(clone(m)), encode(copy_legal target), encode(move_legal target) with encode(m) on generated messages, under ASan+UBSan',
+            'C01\'s generator incl. nested and zero-count groups and header groups; the source encoding is taken from an identically built twin; ASan watches ownership of moved fields and groups.',
+            'SendingTime fixed by the script so encodings are comparable.', '3 C11'),
     'C12': ('prim_exec', 'exploration', 'runtime oracle: independent schema model vs generated tables for all 65536 keys per section; std::set model vs presorted_set under ASan',
             'All 16-bit keys are tried on the field table and on the trait set of a live instance of every message, header, trailer and nested group of both schemas; names and near misses '
             'on the message/reverse tables; thousands of random op histories on both presorted_set templates.',
@@ -85,6 +100,8 @@ def main():
         'engines': [
             {'name': 'prim_exec', 'path': 'harness/prim_exec.cpp', 'serves_properties': ['C07', 'C08', 'C09', 'C10', 'C12', 'C24'],
              'kind_free_text': 'micro-monitors: real primitive + oracle from the property text, ASan/UBSan build'},
+            {'name': 'codec_exec', 'path': 'harness/codec_exec.cpp', 'serves_properties': ['C01', 'C02', 'C03', 'C04', 'C05', 'C06', 'C11'],
+             'kind_free_text': 'generic reflection-driven codec executor; generator and oracles in pylib/fixgen.py, pylib/fixwire.py, checks/codec.py'},
             {'name': 'persist_model', 'path': 'harness/persist_model.cpp', 'serves_properties': ['C26'], 'kind_free_text': 'random API histories vs map model'},
             {'name': 'persist_crash', 'path': 'harness/persist_crash.cpp', 'serves_properties': ['C27'], 'kind_free_text': 'fork + write/lseek countdown crash injection, reopen oracle'},
             {'name': 'logger_stress', 'path': 'harness/logger_stress.cpp', 'serves_properties': ['C28'], 'kind_free_text': 'producer threads + offline exactly-once/order checker'},
